@@ -1,4 +1,5 @@
 mod common;
+mod c05;
 mod c16;
 mod c11;
 mod c14;
@@ -13,6 +14,7 @@ fn main() {
         "C01" => c01::run(&args),
         "C11" => c11::run(&args),
         "C16" => c16::run(&args),
+        "C05" => c05::run(&args),
         x => {
             eprintln!("unknown property {}", x);
             std::process::exit(2);
